@@ -1,5 +1,6 @@
 import PycsepVerif.Proto
 import PycsepVerif.Model.Gridding
+import PycsepVerif.Model.GriddingExt
 import PycsepVerif.Drive.C01
 /-!
   Driver ops of property C03.
@@ -8,6 +9,17 @@ import PycsepVerif.Drive.C01
   `c03_quad <b0> <b1> <b2> <b3> <lons> <lats> <mags> <edges>`           quadtree tiles [b0,b2) x [b1,b3)
    → `sc:<E|counts> sep:<E|flags> mc:<counts> smc:<E|rows ;-separated>`   (E = ValueError)
   `c03_filter <edges> <mags>` → per bin the number of magnitudes kept by the equivalent range filter
+
+  helpers (Model/GriddingExt.lean):
+  `c03_qthelpers <b0> <b1> <b2> <b3> <lons> <lats> <mags> <edges> <minEdge>`
+   → `sc:<E:kind|counts>!<catalog afterwards> smc:<E:kind|rows>!<catalog afterwards>`   (rows of the catalog `lon:lat:mag`, `;`-separated)
+  `c03_bincat <xs> <ys> <is> <js> <flags> <lons> <lats> <mags> <edges>`
+   → `sc:<counts> p:<flags> smc:<rows> sk:<skipped rows>`
+  `c03_idx_cart <xs> <ys> <is> <js> <flags> <lons> <lats> <mags> <edges | none>`
+  `c03_idx_quad <b0> <b1> <b2> <b3> <lons> <lats> <mags> <edges | none>`
+   → `sidx:<E|list> midx:<list, -1 = below> df:<E:kind | rid!mid | rid!none>`
+  `c03_cartesian <xs> <ys> <is> <js> <flags> <data rows ;-separated>`
+   → bounding-box array of the per-polygon row sums, rows `;`-separated, `n` = nan
 -/
 namespace Drive.C03
 open Proto Gridding
@@ -26,7 +38,79 @@ def zip4 : List Rat → List Rat → List Rat → List Rat → List (Rat × Rat 
   | a :: as, b :: bs, c :: cs, d :: ds => (a, b, c, d) :: zip4 as bs cs ds
   | _, _, _, _ => []
 
+def showQErr : QErr → String
+  | .emptyMin => "E:emptyMin" | .emptyIndex => "E:emptyIndex" | .shape => "E:shape" | .outside => "E:outside"
+
+def showRowsCat (l : List Row) : String :=
+  if l.isEmpty then "-" else ";".intercalate (l.map fun e => s!"{showRat e.lon}:{showRat e.lat}:{showRat e.mag}")
+
+def showQ {α} (f : α → String) (r : Except QErr α × List Row) : String :=
+  (match r.1 with | .error e => showQErr e | .ok a => f a) ++ "!" ++ showRowsCat r.2
+
+def showIdx (l : List (Option Nat)) : String :=
+  showList (fun o => match o with | none => "-1" | some k => toString k) l
+
+def showDf (r : Except DfErr (List Nat × Option (List (Option Nat)))) : String :=
+  match r with
+  | .error .outside => "E:outside" | .error .length => "E:length" | .error .emptyIndex => "E:emptyIndex"
+  | .ok (rid, mid) => showNats rid ++ "!" ++ (match mid with | none => "none" | some m => showIdx m)
+
+def parseEdgesOpt? (s : String) : Option (Option (List Rat)) :=
+  if s = "none" then some none else (parseList? parseRat? s).map some
+
+def showCartRat (o : Option Rat) : String := match o with | none => "n" | some v => showRat v
+
 def handle : List String → Option String
+  | ["c03_qthelpers", b0, b1, b2, b3, lons, lats, mags, edges, minEdge] => some (
+      match parseList? parseRat? b0, parseList? parseRat? b1, parseList? parseRat? b2, parseList? parseRat? b3,
+            parseList? parseRat? lons, parseList? parseRat? lats, parseList? parseRat? mags,
+            parseList? parseRat? edges, parseRat? minEdge with
+      | some b0, some b1, some b2, some b3, some lons, some lats, some mags, some edges, some me =>
+        let bounds := zip4 b0 b1 b2 b3
+        let evs : List Row := zip3 lons lats mags
+        s!"sc:{showQ showNats (qtGetSpatialCounts bounds me evs)} smc:{showQ showRows (qtGetSpatialMagnitudeCounts bounds edges me evs)}"
+      | _, _, _, _, _, _, _, _, _ => "bad-op")
+  | ["c03_bincat", xs, ys, is, js, fl, lons, lats, mags, edges] => some (
+      match parseList? parseRat? xs, parseList? parseRat? ys, parseList? Drive.C01.parseNat? is,
+            parseList? Drive.C01.parseNat? js, parseList? Drive.C01.parseNat? fl, parseList? parseRat? lons,
+            parseList? parseRat? lats, parseList? parseRat? mags, parseList? parseRat? edges with
+      | some xs, some ys, some is, some js, some fl, some lons, some lats, some mags, some edges =>
+        let R := Region.Region.new xs ys (Drive.C01.topOf xs) (Drive.C01.topOf ys) (Drive.C01.mkCells is js fl)
+        let evs : List Row := zip3 lons lats mags
+        let pts := evs.map fun e => (e.lon, e.lat)
+        let n := R.cells.length
+        let r := binCatalogSMC R n edges evs
+        s!"sc:{showNats (binCatalogSpatialCounts R n pts)} p:{showNats (binCatalogProbability R n pts)} smc:{showRows r.1} sk:{showRowsCat r.2}"
+      | _, _, _, _, _, _, _, _, _ => "bad-op")
+  | ["c03_idx_cart", xs, ys, is, js, fl, lons, lats, mags, edges] => some (
+      match parseList? parseRat? xs, parseList? parseRat? ys, parseList? Drive.C01.parseNat? is,
+            parseList? Drive.C01.parseNat? js, parseList? Drive.C01.parseNat? fl, parseList? parseRat? lons,
+            parseList? parseRat? lats, parseList? parseRat? mags, parseEdgesOpt? edges with
+      | some xs, some ys, some is, some js, some fl, some lons, some lats, some mags, some edges =>
+        let R := Region.Region.new xs ys (Drive.C01.topOf xs) (Drive.C01.topOf ys) (Drive.C01.mkCells is js fl)
+        let evs : List Row := zip3 lons lats mags
+        let sidx := match getSpatialIdxCart R evs with | .error _ => "E" | .ok l => showNats l
+        let midx := match edges with | none => "none" | some ed => showIdx (getMagIdx ed evs)
+        s!"sidx:{sidx} midx:{midx} df:{showDf (dfColumnsCart R edges evs)}"
+      | _, _, _, _, _, _, _, _, _ => "bad-op")
+  | ["c03_idx_quad", b0, b1, b2, b3, lons, lats, mags, edges] => some (
+      match parseList? parseRat? b0, parseList? parseRat? b1, parseList? parseRat? b2, parseList? parseRat? b3,
+            parseList? parseRat? lons, parseList? parseRat? lats, parseList? parseRat? mags, parseEdgesOpt? edges with
+      | some b0, some b1, some b2, some b3, some lons, some lats, some mags, some edges =>
+        let bounds := zip4 b0 b1 b2 b3
+        let evs : List Row := zip3 lons lats mags
+        let sidx := match getSpatialIdxQuad bounds evs with | .error _ => "E" | .ok l => showNats l
+        let midx := match edges with | none => "none" | some ed => showIdx (getMagIdx ed evs)
+        s!"sidx:{sidx} midx:{midx} df:{showDf (dfColumnsQuad bounds edges evs)}"
+      | _, _, _, _, _, _, _, _ => "bad-op")
+  | ["c03_cartesian", xs, ys, is, js, fl, data] => some (
+      match parseList? parseRat? xs, parseList? parseRat? ys, parseList? Drive.C01.parseNat? is,
+            parseList? Drive.C01.parseNat? js, parseList? Drive.C01.parseNat? fl, parseList2? parseRat? data with
+      | some xs, some ys, some is, some js, some fl, some data =>
+        let R := Region.Region.new xs ys (Drive.C01.topOf xs) (Drive.C01.topOf ys) (Drive.C01.mkCells is js fl)
+        let rows := markedCartesian R data
+        if rows.isEmpty then "-" else ";".intercalate (rows.map fun r => ",".intercalate (r.map showCartRat))
+      | _, _, _, _, _, _ => "bad-op")
   | ["c03_cart", xs, ys, is, js, fl, lons, lats, mags, edges] => some (
       match parseList? parseRat? xs, parseList? parseRat? ys, parseList? Drive.C01.parseNat? is,
             parseList? Drive.C01.parseNat? js, parseList? Drive.C01.parseNat? fl, parseList? parseRat? lons,
